@@ -279,6 +279,14 @@ def snapPort (parent child : Box) (overhang : Rat) : Except Err V2 :=
   | .ok newmid => .ok (child.pos + (newmid - mid))
   | .error e => .error e
 
+/-- "attached to the parent's border": the closed rectangle `(pos, size)` meets the closed parent box and is
+not contained in its open interior — i.e. it contains a point of the parent's outline -/
+def portAttached (parent : Box) (pos size : V2) : Prop :=
+  (pos.x ≤ parent.pos.x + parent.size.x ∧ parent.pos.x ≤ pos.x + size.x ∧
+   pos.y ≤ parent.pos.y + parent.size.y ∧ parent.pos.y ≤ pos.y + size.y) ∧
+  (pos.x ≤ parent.pos.x ∨ parent.pos.x + parent.size.x ≤ pos.x + size.x ∨
+   pos.y ≤ parent.pos.y ∨ parent.pos.y + parent.size.y ≤ pos.y + size.y)
+
 /-- non-port branch: new `(pos, size)`; `rawSize` is the stored `_size`, `child.size` the value of
 the `size` property; `margin` is `parent.CHILD_MARGIN` -/
 def snapChild (parent child : Box) (rawSize : V2) (margin : Rat) : V2 × V2 :=
@@ -341,6 +349,9 @@ def viewport (bounds : List Rect) : Option Rect :=
   bounds.foldl (fun acc r => some (extendViewport acc r)) none
 
 /-! ### `Edge.vector_snap` -/
+
+/-- `q` lies on the segment from `a` to `b` -/
+def onSegment (a b q : V2) : Prop := ∃ t : Rat, 0 ≤ t ∧ t ≤ 1 ∧ q = a + (b - a).smul t
 
 /-- closest point of the segment `a b` to `v` (`a ≠ b`) -/
 def segProject (a b v : V2) : V2 :=
